@@ -78,6 +78,28 @@ func (li *Language) CheckSyntax(expression string) error {
 	return nil
 }
 
+// CheckUpdateSyntax parses an update expression and applies the checks that do not depend on
+// the item, without evaluating it
+func (li *Language) CheckUpdateSyntax(expression string) error {
+	p := language.NewUpdateParser(language.NewLexer(expression))
+	update := p.ParseUpdateExpression()
+
+	if len(p.Errors()) != 0 {
+		errType := ErrSyntaxError
+		if p.IsUnsupportedExpression() {
+			errType = ErrUnsupportedFeature
+		}
+
+		return fmt.Errorf("%w: %s", errType, strings.Join(p.Errors(), "\n"))
+	}
+
+	if result := language.ValidateUpdate(update); result != nil && result.Type() == language.ObjectTypeError {
+		return fmt.Errorf("%w: %s", ErrSyntaxError, result.Inspect())
+	}
+
+	return nil
+}
+
 func buildAliases(input UpdateInput) map[string]string {
 	aliases := map[string]string{}
 	for k, v := range input.Aliases {
